@@ -1,6 +1,7 @@
 import Check.C17
 import Check.C06
 import Check.C07
+import Check.C08
 /-! upfcheck: `upfcheck <property> <trace>` replays every case of the trace through the Lean model
 and the property oracle. Prints one line per problem (first 25 of each kind) and a summary. -/
 open Check
@@ -10,6 +11,7 @@ def checker (prop : String) : Option (Nat → String → Verdict) :=
   | "C17" => some C17.check
   | "C06" => some C06.check
   | "C07" => some C07.check
+  | "C08" => some C08.check
   | _ => none
 
 partial def loop (h : IO.FS.Stream) (f : Nat → String → Verdict) (n ok mm orc bad : Nat) : IO (Nat × Nat × Nat × Nat × Nat) := do
@@ -20,10 +22,10 @@ partial def loop (h : IO.FS.Stream) (f : Nat → String → Verdict) (n ok mm or
   match f n line with
   | .ok => loop h f (n+1) (ok+1) mm orc bad
   | .mismatch msg =>
-    if mm < 25 then IO.println s!"MISMATCH {n+1} :: {line.take 300} :: {msg}"
+    if mm < 3000 then IO.println s!"MISMATCH {n+1} :: {line.take 300} :: {msg}"
     loop h f (n+1) ok (mm+1) orc bad
   | .oracle msg =>
-    if orc < 25 then IO.println s!"ORACLE {n+1} :: {line.take 300} :: {msg}"
+    if orc < 3000 then IO.println s!"ORACLE {n+1} :: {line.take 300} :: {msg}"
     loop h f (n+1) ok mm (orc+1) bad
   | .bad msg =>
     if bad < 25 then IO.println s!"BAD {n+1} :: {line.take 300} :: {msg}"
